@@ -615,13 +615,17 @@ fn op_wf(ctx: &mut Ctx, idx: usize, rng: &mut Rng) {
 // ---------------------------------------------------------------------------------------------
 // C03: edge headings + turn delay table
 
-fn op_heads(ctx: &mut Ctx, idx: usize, rng: &mut Rng) {
+/// `corpus_neg`: a hand-written witness — an otherwise well-formed configuration whose delay table holds this
+/// (negative) number for every turn class
+fn op_heads(ctx: &mut Ctx, idx: usize, rng: &mut Rng, corpus_neg: Option<f64>) {
     use routee_compass::app::compass::config::access_model::turn_delay_access_model_builder::TurnDelayAccessModelBuilder;
     use routee_compass_core::model::access::access_model_builder::AccessModelBuilder;
-    let n = rng.below(7);
+    let is_corpus = corpus_neg.is_some();
+    let n = if is_corpus { 3 } else { rng.below(7) };
     let mut expect = Expect::Ok;
     // header: 0 as documented, 1 columns swapped (read by name), 2 a wrong column name
     let header = match rng.below(10) {
+        _ if is_corpus => 0,
         0 => 1,
         1 => 2,
         _ => 0,
@@ -636,7 +640,7 @@ fn op_heads(ctx: &mut Ctx, idx: usize, rng: &mut Rng) {
             Some((a, d))
         })
         .collect();
-    if n > 0 && rng.chance(1, 5) {
+    if n > 0 && !is_corpus && rng.chance(1, 5) {
         let k = rng.below(n);
         expect = Expect::Err;
         match rng.below(5) {
@@ -647,7 +651,7 @@ fn op_heads(ctx: &mut Ctx, idx: usize, rng: &mut Rng) {
             _ => rows[k].as_mut().unwrap().0 = IntCell::I(*rng.pick(&[32768i128, -32769, 40000, 100000]), 0), // not an i16
         }
     }
-    let file_present = !rng.chance(1, 12);
+    let file_present = is_corpus || !rng.chance(1, 12);
     if !file_present {
         expect = Expect::Err;
     }
@@ -659,6 +663,25 @@ fn op_heads(ctx: &mut Ctx, idx: usize, rng: &mut Rng) {
             table.insert(name.to_string(), if rng.chance(1, 3) { json!(rng.below(30)) } else { json!(rng.small_decimal(30, 1)) });
         }
     }
+    // a negative delay would make the reported time run backwards along a route: the builder must refuse it
+    // (its own generator, so that the other choices of a case do not move)
+    let mut rng_neg = Rng::for_case(ctx.seed, 9103, idx as u64);
+    let mut has_negative = false;
+    if let Some(v) = corpus_neg {
+        for name in TURN_NAMES.iter() {
+            table.insert(name.to_string(), json!(v));
+        }
+        has_negative = true;
+    } else if rng_neg.chance(1, 8) {
+        let name = *rng_neg.pick(&TURN_NAMES);
+        let v = -(rng_neg.small_decimal(30, 1) + if rng_neg.chance(1, 2) { 0.5 } else { 1e-9 });
+        table.insert(name.to_string(), if rng_neg.chance(1, 4) { json!(-(1 + rng_neg.below(30) as i64)) } else { json!(v) });
+        has_negative = true;
+    }
+    if has_negative {
+        expect = Expect::Err;
+        ctx.count("bld_heads_negative_delay");
+    }
     let mut tdm = json!({"type": "tabular_discrete", "table": table, "time_unit": tu.to_string()});
     let mut cfg = serde_json::Map::new();
     cfg.insert("type".into(), json!("turn_delay"));
@@ -667,7 +690,7 @@ fn op_heads(ctx: &mut Ctx, idx: usize, rng: &mut Rng) {
     if let Some(f) = feature_name {
         cfg.insert("time_feature_name".into(), json!(f));
     }
-    if rng.chance(1, 4) {
+    if !is_corpus && rng.chance(1, 4) {
         expect = Expect::Err;
         match rng.below(9) {
             0 => {
@@ -691,7 +714,7 @@ fn op_heads(ctx: &mut Ctx, idx: usize, rng: &mut Rng) {
             }
         }
     }
-    let tdm_missing = rng.chance(1, 20);
+    let tdm_missing = !is_corpus && rng.chance(1, 20);
     if tdm_missing {
         expect = Expect::Err;
     } else {
@@ -723,6 +746,8 @@ fn op_heads(ctx: &mut Ctx, idx: usize, rng: &mut Rng) {
     let ftu = *rng.pick(&TU);
     let state_name = if rng.chance(1, 6) { "trip_time" } else { "time" };
     let pairs: Vec<(usize, usize)> = (0..6).map(|_| (rng.below(n + 2), rng.below(n + 2))).collect();
+    // the property itself, on what the real access model does: a turn never takes time off the clock
+    let time_decreased: std::cell::Cell<Option<f64>> = std::cell::Cell::new(None);
     let res = catch_unwind(AssertUnwindSafe(|| -> Result<String, String> {
         let service = TurnDelayAccessModelBuilder {}.build(&real_cfg).map_err(|e| e.to_string())?;
         let model = service.build(&json!({})).map_err(|e| e.to_string())?;
@@ -737,7 +762,14 @@ fn op_heads(ctx: &mut Ctx, idx: usize, rng: &mut Rng) {
             let e1 = Edge::new(*pe, 0, 1, 10.0);
             let e2 = Edge::new(*ne, 1, 2, 10.0);
             match model.access_edge((&v, &e1, &v, &e2, &v), &mut st, &sm) {
-                Ok(()) => out.push_str(&format!(" {}", state_out(&st))),
+                Ok(()) => {
+                    if let Some(x) = st.first() {
+                        if x.0 < 0.0 {
+                            time_decreased.set(Some(x.0));
+                        }
+                    }
+                    out.push_str(&format!(" {}", state_out(&st)))
+                }
                 Err(_) => out.push_str(" none"),
             }
         }
@@ -784,7 +816,15 @@ fn op_heads(ctx: &mut Ctx, idx: usize, rng: &mut Rng) {
             ctx.count("bld_heads_ok");
             ctx.emit(idx, case.clone(), format!("ok {}", out));
             ctx.nontrivial(&case);
-            verdict(ctx, idx, "TurnDelayAccessModelBuilder", expect, true, None, &what);
+            if let Some(x) = time_decreased.get() {
+                ctx.fail(
+                    idx,
+                    "turn_delay/time-decreases",
+                    format!("TurnDelayAccessModelBuilder accepted a delay table with a negative delay; access_edge moved the time from 0 to {} on {}", x, what),
+                );
+            } else {
+                verdict(ctx, idx, "TurnDelayAccessModelBuilder", expect, true, None, &what);
+            }
         }
     }
 }
@@ -2011,6 +2051,14 @@ pub fn run_stream(ctx: &mut Ctx, p: Prop) {
             op_speng(ctx, idx, &mut rng, Some(rows));
         }
     }
+    if p == Prop::C03 {
+        // witnesses of the repaired TurnDelayAccessModelBuilder: a negative delay must be refused
+        for v in [-5.0f64, -0.25] {
+            let Some(idx) = ctx.begin() else { continue };
+            let mut rng = Rng::for_case(ctx.seed, tag(p), idx as u64);
+            op_heads(ctx, idx, &mut rng, Some(v));
+        }
+    }
     if p == Prop::C04 {
         // witnesses of the repaired VehicleParameters::from_query: a number of axles beyond u8 was wrapped
         for axles in [256u64, 257, 4294967298, 255] {
@@ -2046,7 +2094,7 @@ pub fn run_stream(ctx: &mut Ctx, p: Prop) {
             },
             Prop::C03 => match k % 3 {
                 0 => op_speng(ctx, idx, &mut rng, None),
-                _ => op_heads(ctx, idx, &mut rng),
+                _ => op_heads(ctx, idx, &mut rng, None),
             },
             Prop::C04 => match k % 8 {
                 0 | 1 | 2 => op_vp(ctx, idx, &mut rng, None),
